@@ -233,7 +233,7 @@ func parentMain(prop *Property, tier string, seed int64, verifDir string, nworke
 				cmd.ExtraFiles = []*os.File{pw}
 				stderrBuf = &tailBuf{}
 				cmd.Stderr = stderrBuf
-				cmd.Env = append(os.Environ(), "GOMAXPROCS=2")
+				cmd.Env = append(os.Environ(), "GOMAXPROCS=1")
 				stdin, _ = cmd.StdinPipe()
 				if err := cmd.Start(); err != nil {
 					fmt.Fprintf(os.Stderr, "cannot start worker: %v\n", err)
